@@ -519,6 +519,10 @@ func (c *cenv) composite(n *ast.CompositeLit) Val {
 	}
 	st, ok := t.Underlying().(*types.Struct)
 	if !ok {
+		if len(n.Elts) == 0 {
+			// T{} of an array / named array type: the zero value
+			return e.zero(c.st(), t)
+		}
 		return c.errf("unsupported composite literal of %s", t)
 	}
 	v := e.zero(c.st(), t)
@@ -718,6 +722,14 @@ func (c *cenv) call(n *ast.CallExpr) Val {
 			e.trusted["protobuf codec: Marshal is a deterministic function, Unmarshal(Marshal(x)) == x"]++
 			srt := e.sortOfT(t)
 			return e.wrapTerm(t, e.D.uf("spec_pbunmarshal_"+ifaceShortName(t), []string{sStr}, srt, e.term(c.st(), bz)))
+		case "visited":
+			// visited(k): key k of the map being ranged over has already been handed out by the iteration
+			vs, ok := c.vars["visitedset"]
+			if !ok {
+				return c.errf("visited: no map iteration in progress")
+			}
+			k := c.coerce(c.eval(n.Args[0]), vs.Typ)
+			return termVal(boolT, sBool, fmt.Sprintf("(select %s %s)", vs.T, e.term(c.st(), k)))
 		case "hasprefix":
 			// hasprefix(a, b): byte string a starts with b; decided by the segment algebra where it can be
 			a, b := c.eval(n.Args[0]), c.eval(n.Args[1])
